@@ -445,18 +445,19 @@ def run(prop, args):
 
     # 2. scripts
     execs = []
-    behs, r = tlc_behaviours(40 if quick else 400, 12 if quick else 14, args.seed)
+    behs, r = tlc_behaviours(40 if quick else 800, 12 if quick else 14, args.seed)
     chk.add_tlc(r, "behaviour generation (SampleGen, -generate)")
     chk.sample({"tlc_generated_behaviour": behs[0][:5]})
     for k, beh in enumerate(behs):
         execs.append(behaviour_script(beh, "gen%d" % k))
     execs += directed_execs()
-    nrand = 200 if quick else 3000
+    nrand = 200 if quick else 20000
     for i in range(nrand):
         if i % 4 == 3:
             execs.append(cover_exec(rng, "cov%d" % i))
         else:
             execs.append(random_exec(rng, "rnd%d" % i, thorough=not quick))
+    rng.shuffle(execs)          # spread the kinds of execution evenly over the batches
     chk.extra["executions_per_chain"] = len(execs)
     chk.extra["tlc_generated_behaviours"] = len(behs)
     chk.extra["chains"] = ["PIXMAN_DISABLE='%s'" % c for c in CHAINS]
@@ -464,7 +465,7 @@ def run(prop, args):
     # 3. execute on the real library (built from /repo's working tree), one process per implementation chain
     exe, px = vf.build_driver("drv_sample", "plain")
     chk.extra["build"] = px["hash"]
-    nb = 2 if quick else 8
+    nb = 2 if quick else 30
     traces = []
     chain_of = {}
     for bi in range(nb):
